@@ -34,6 +34,7 @@ type cblock struct {
 	bc         *statecache.BlockCache
 	depth      int
 	lateHash   bool // the block cache was created without a hash; SetBlockHash is called right before the commit
+	late       map[string]cval // written into the block cache object AFTER the block was committed: private to that object for good
 }
 
 type ctxn struct {
@@ -395,14 +396,55 @@ func (w *cworld) blockCommit(c *fw.Ctx, b *cblock) {
 func (w *cworld) recommit(c *fw.Ctx, b *cblock) {
 	c.Tracef("%s committed a second time (different writes; must be ignored)", b.hash)
 	bc2 := statecache.NewBlockCache(w.sc, statecache.Block{Round: b.round, Hash: b.hash, PrevHash: b.prev})
+	own := map[string]string{}
 	for _, k := range w.keyNames {
 		if w.r.Intn(2) == 0 {
-			_, val := w.newToken(b, k)
+			tok, val := w.newToken(b, k)
 			bc2.Set(k, val)
+			if w.mutable {
+				scribble(val)
+			}
+			own[k] = tok
 		}
 	}
 	bc2.Commit()
+	// the refused duplicate keeps what was written into it: lookups through it see its own writes first
+	for _, k := range w.keyNames {
+		if tok, ok := own[k]; ok {
+			got, hit := bc2.Get(k)
+			if !w.judge(c, fmt.Sprintf("BlockCache(%s, refused duplicate commit).Get(%s)", b.hash, k), k, got, hit, tok, true, true, "") {
+				return
+			}
+		}
+	}
 	c.Count("duplicate_commits", 1)
+}
+
+// lateWrite writes into the block cache object of a block that has been committed already (directly or through a
+// transaction commit that comes late): the write stays private to that object - lookups through it and through its
+// transaction caches see it first, lookups at the block's hash keep seeing what was committed.
+func (w *cworld) lateWrite(c *fw.Ctx, b *cblock, key string, viaTxn bool) {
+	if b.late == nil {
+		b.late = map[string]cval{}
+	}
+	tok, val := w.newToken(b, key)
+	if viaTxn {
+		tc := statecache.NewTransactionCache(b.bc)
+		tc.Set(key, val)
+		if w.mutable {
+			scribble(val)
+		}
+		tc.Commit()
+		c.Tracef("%s (committed): late transaction sets %s and commits into the block cache", b.hash, key)
+	} else {
+		b.bc.Set(key, val)
+		if w.mutable {
+			scribble(val)
+		}
+		c.Tracef("%s (committed): late set %s (block cache)", b.hash, key)
+	}
+	b.late[key] = cval{tok: tok}
+	c.Count("late_writes_into_committed_block_caches", 1)
 }
 
 // lookups
@@ -427,6 +469,11 @@ func (w *cworld) getBlockCtx(c *fw.Ctx, key string, b *cblock) bool {
 	if b.committed {
 		// the block cache object of a committed block is still a lookup context of that block: own (now committed)
 		// writes first, then the ancestors
+		if v, late := b.late[key]; late {
+			got, ok := b.bc.Get(key)
+			c.Tracef("get %s in block cache %s (committed, late write) -> %v", key, b.hash, ok)
+			return w.judge(c, fmt.Sprintf("BlockCache(%s, committed, written again afterwards).Get(%s)", b.hash, key), key, got, ok, v.tok, true, true, "")
+		}
 		tok, found, sure, depth := w.truth(key, b.hash)
 		sig := w.overflowSig(key)
 		got, ok := b.bc.Get(key)
@@ -454,6 +501,10 @@ func (w *cworld) getTxnCtx(c *fw.Ctx, key string, t *ctxn) bool {
 			got, ok := t.tc.Get(key)
 			c.Tracef("get %s in txn cache %s (block committed, own write) -> %v", key, t.name, ok)
 			return w.judge(c, fmt.Sprintf("TransactionCache(%s, block committed).Get(%s)", t.name, key), key, got, ok, v.tok, !v.tomb, !v.tomb, w.overflowSig(key))
+		}
+		if v, late := t.blk.late[key]; late {
+			got, ok := t.tc.Get(key)
+			return w.judge(c, fmt.Sprintf("TransactionCache(%s, block committed and written again afterwards).Get(%s)", t.name, key), key, got, ok, v.tok, true, true, "")
 		}
 		tok, found, sure, depth := w.truth(key, t.blk.hash)
 		sig := w.overflowSig(key)
